@@ -227,14 +227,15 @@ Definition body_view (b : abody) (tv jtv : view) : view :=
   end.
 
 (* ---- harness interface ----
-   case (payload xcb xserver pid api xmb jtv)     api: which wrapper is called (Data / WriteData / Success,
+   case (payload xcb xserver pid api xmb jtv fx)   fx = (mw dt len ...), see [fetched]     api: which wrapper is called (Data / WriteData / Success,
                                               Error / WriteError / CplxError / WriteCplxError); not modelled apart
      payload = (0 v xmerr tv) | (1 c) | (2 c xmsg w) | (3 c xmsg hs) | (4 st xmsg tv) | (5 xversion): WriteVersion | (6 st (5 (xkey v)...) xmerr tv): Data with a replaced FilterData   st = -1: no Status()
      v = (0) | (1 b) | (2 bits) | (3 xstr) | (4 v...) | (5 (xkey v)...) | (6 k)
      tv = (0) | (1) | (2) | (3 c): what encoding/json + apiParse make of the text body
    xmb: json.Marshal of the expected envelope object, computed by the harness itself (empty for
    text bodies).
-   observation (status ctype xserver body client xwire)   xwire = the complete body bytes
+   observation (status ctype xserver body client xwire xgot)   xwire = the complete body bytes,
+   xgot = the body ApiRequest returns (what apiGet fetched)
      ctype 0 json 1 javascript 2 text;  body = (0 xcb ((xkey v)...)) | (1 xtext)
      client = (err code);  jtv: the oracle's view of the text callback(json) *)
 Fixpoint sx_jv (fuel : nat) (s : sx) : option jv :=
@@ -399,20 +400,58 @@ Definition wire_exec (mb : bytes) (b : abody) : bytes :=
   | BText t => t
   end.
 
-Definition obs_c19 (r : resp) (tv jtv : view) (mb : bytes) : sx :=
+(* ---- the client's fetch: apiGet = http.Get + ioutil.ReadAll(resp.Body) ----
+   The transport delivers the body as a list of read segments ((n, nil) reads, empty reads
+   included) ended by io.EOF, which may come together with the last bytes; ReadAll appends every
+   chunk until io.EOF.  [dt] is kept to mirror the two ways the end can arrive. *)
+Fixpoint fetch (segs : list bytes) (dt : bool) (acc : bytes) : bytes :=
+  match segs with
+  | [] => acc                                   (* (0, io.EOF) *)
+  | s :: t => match t with
+              | [] => if dt then acc ++ s        (* (n, io.EOF): the last bytes with the end *)
+                      else fetch t dt (acc ++ s)
+              | _ => fetch t dt (acc ++ s)
+              end
+  end.
+
+(* the body cut as the case says: (len ...) and the rest as the last segment *)
+Fixpoint cut_body (lens : list sx) (d : bytes) : list bytes :=
+  match lens with
+  | [] => match d with [] => [] | _ => [d] end
+  | SZ n :: t => match takeN (Z.to_N n) d with
+                 | Some (a, r) => a :: cut_body t r
+                 | None => match d with [] => [] | _ => [d] end
+                 end
+  | _ :: t => cut_body t d
+  end.
+
+(* fx = (mw dt len ...): mw = the handler runs behind a middleware that sets Content-Length (not
+   visible in the model: the body bytes are the same); the response body reaches the client cut
+   into segments of the given lengths *)
+Definition fetched (fx : sx) (wire : bytes) : option bytes :=
+  match fx with
+  | SL (SZ _ :: SZ dt :: lens) => Some (fetch (cut_body lens wire) (negb (dt =? 0)) [])
+  | _ => None
+  end.
+
+Definition obs_c19 (r : resp) (tv jtv : view) (mb : bytes) (fx : sx) : sx :=
   let cl := let '(code, err) := client (status r) (body_view (body r) tv jtv) in SL [sbool err; SZ code] in
-  SL [SZ (status r); SZ (ctype_code (ctyp r)); SB (server r); body_sx (body r); cl; SB (wire_exec mb (body r))].
+  match fetched fx (wire_exec mb (body r)) with
+  | Some got =>
+      SL [SZ (status r); SZ (ctype_code (ctyp r)); SB (server r); body_sx (body r); cl; SB (wire_exec mb (body r)); SB got]
+  | None => bad_case
+  end.
 
 Definition run_c19 (c : sx) : sx :=
   match c with
-  | SL [SL [SZ 5; SB ver]; SB cb; SB srv; SZ pd; SZ _; SB mb; jv0] =>
+  | SL [SL [SZ 5; SB ver]; SB cb; SB srv; SZ pd; SZ _; SB mb; jv0; fx] =>
       match sx_view jv0 with
-      | Some jtv => obs_c19 (respond_version {| srv_name := srv; pid := pd |} cb ver) VFail jtv mb
+      | Some jtv => obs_c19 (respond_version {| srv_name := srv; pid := pd |} cb ver) VFail jtv mb fx
       | None => bad_case
       end
-  | SL [p; SB cb; SB srv; SZ pd; SZ _; SB mb; jv0] =>
+  | SL [p; SB cb; SB srv; SZ pd; SZ _; SB mb; jv0; fx] =>
       match sx_payload p, sx_view jv0 with
-      | Some (pl, tv), Some jtv => obs_c19 (respond {| srv_name := srv; pid := pd |} cb pl) tv jtv mb
+      | Some (pl, tv), Some jtv => obs_c19 (respond {| srv_name := srv; pid := pd |} cb pl) tv jtv mb fx
       | _, _ => bad_case
       end
   | _ => bad_case
